@@ -62,6 +62,16 @@ def shapes():
     out.append(("no_newline", "SCHEMA s;\nENTITY e;\n a : INTEGER;\nEND_ENTITY;\nEND_SCHEMA;", None))
     out.append(("nonascii", "SCHEMA s;\nENTITY e;\n \xe9\xff a : INTEGER;\nEND_ENTITY;\nEND_SCHEMA;\n", None))
     out.append(("many_errors", "SCHEMA s;\n" + "".join("ENTITY x%d; a : nosuchtype%d; END_ENTITY;\n" % (i, i) for i in range(300)) + "END_SCHEMA;\n", None))
+    # names of the wrong kind where an expression or a variable is expected: the name of a defined type of every class,
+    # of an entity, a function, a rule, the schema
+    for nm in ("t_bag", "t_list", "t_str", "t_int", "t_real", "t_bool", "t_enum", "t_sel", "t_arr", "t_bin", "ent", "fun", "s"):
+        out.append(("name_misused_%s" % nm,
+                    "SCHEMA s;\nTYPE t_bag = BAG [1:?] OF STRING;\nEND_TYPE;\nTYPE t_list = LIST OF INTEGER;\nEND_TYPE;\nTYPE t_str = STRING;\nEND_TYPE;\n"
+                    "TYPE t_int = INTEGER;\nEND_TYPE;\nTYPE t_real = REAL;\nEND_TYPE;\nTYPE t_bool = BOOLEAN;\nEND_TYPE;\nTYPE t_enum = ENUMERATION OF (aa, bb);\nEND_TYPE;\n"
+                    "TYPE t_arr = ARRAY [1:2] OF REAL;\nEND_TYPE;\nTYPE t_bin = BINARY;\nEND_TYPE;\n"
+                    "ENTITY ent;\n a : INTEGER;\nEND_ENTITY;\nTYPE t_sel = SELECT (ent, t_int);\nEND_TYPE;\n"
+                    "FUNCTION fun (x : INTEGER) : INTEGER;\n LOCAL\n  y : INTEGER;\n END_LOCAL;\n %s := x + 1;\n y := %s + x;\n IF %s > 2 THEN\n  y := 1;\n END_IF;\n RETURN (y);\nEND_FUNCTION;\n"
+                    "ENTITY e2;\n b : INTEGER;\nWHERE\n w1 : b > %s;\nEND_ENTITY;\nEND_SCHEMA;\n" % (nm, nm, nm, nm), None))
     out.append(("empty", "", None))
     out.append(("only_keyword", "SCHEMA", None))
     out.append(("unterminated_string", BASE % "CONSTANT c : STRING := 'abc;\nEND_CONSTANT;", None))
